@@ -261,9 +261,11 @@ _ADD = {
                  "EnumProperty.values_from_list (one member per listed value, positions never share a member name), class "
                  "registration in Model/Enum/LiteralEnumProperty.build (never overwrites a table entry).",
         "note": "Trusted: pyvc's encoding of the str/re primitives and of the Python subset (both cross-checked against CPython), "
-                "the running interpreter's Unicode tables, field_prefix in SAFE_PREFIX. Not proved: attribute uniqueness in "
-                "_add_if_no_conflict (a closure; bounded stand-in only) and one stated residual of the parameter contract (a "
-                "recorded parameter renamed by the reserved-name branch in the last pass).",
+                "the running interpreter's Unicode tables, field_prefix in SAFE_PREFIX. Model attributes: the closure "
+                "_process_properties._add_if_no_conflict (taken from the real AST on every run) and _resolve_naming_conflict are "
+                "under contract for a property table of any size (a stored property never shares its python name with another "
+                "entry); the walk of _process_properties around it is covered by a bounded stand-in. Not proved: one stated "
+                "residual of the parameter contract (a recorded parameter renamed by the reserved-name branch in the last pass).",
     },
     "C01": {"text+": " Parameter name conflicts: inductive contract of _check_parameters_for_conflicts (any number of "
                      "parameters) in addition to the bounded stand-in."},
@@ -285,9 +287,14 @@ _ADD = {
                      "that was not registered), update_schemas_with_data (registered or named in the diagnostic), class "
                      "registration never overwrites, Endpoint.from_data body accounting, Endpoint.add_parameters, "
                      "response_from_data.",
-            "note+": " The fixpoint accounting is count-level (not per-item identity); a restructured loop makes the inductive "
+            "note+": " EndpointCollection.from_data additionally has an inductive contract for any number of path items, "
+                     "operations and tags under generate_all_tags=False (nested loop invariants; the loop over the eight method "
+                     "names runs by invariant as well): every operation ends as an Endpoint or a fatal ParseError in the "
+                     "collection of its first tag, exactly one of the two. The fixpoint accounting is count-level (not per-item identity); a restructured loop makes the inductive "
                      "contract undecided and the bounded stand-in schema_accounting gives the witness."},
-    "C08": {"text+": " Retry fixpoints and _resolve_reference by inductive contracts (any size)."},
+    "C08": {"text+": " Retry fixpoints and _resolve_reference by inductive contracts (any size); EndpointCollection.from_data: "
+                     "the Schemas returned holds the initial content and what every kept operation registered, whatever the "
+                     "other operations did (inductive, any number of path items and operations)."},
     "C11": {"text+": " Model/List/Const overrides of get_type_string obey the same Unset discipline."},
     "C12": {"text+": " Class registration never overwrites a table entry (so the surviving class does not depend on order); "
                      "hash-seed stand-in extended by a determinism document (unions of several const/enum/model members)."},
@@ -302,6 +309,9 @@ _ADD = {
                      "update_parameters_with_data / update_schemas_with_data register exactly the built object under the "
                      "reference path; add_parameters resolves before de-duplication (inductive); _resolve_reference "
                      "(inductive); response_from_data replaces a $ref by the component itself."},
+    "C16": {"text+": " Config.from_sources carries every option of the config file and every CLI argument into the Config "
+                     "unchanged (table options keep their content, post_hooks kept as given or defaulted per meta type); "
+                     "Project.__init__ derives project and package names only from the documented sources."},
     "C02": {"text+": " Engine B is cross-checked against CPython on concrete wire objects of every schematic model on every "
                      "run; const members inside unions are part of the schematic family (repaired defect)."},
 }
